@@ -172,6 +172,7 @@ MCNext ==
 
 MCSpec == MCInit /\ [][MCNext]_pvars
 
+
 \* one line per transition; always TRUE
 Emit ==
   IF EmitOn THEN
